@@ -129,6 +129,22 @@ def run(ctx):
             want_m = interp(ttx[:, tx] - a, trx[:, rx] - a) * Q[:, tx] * Qp[:, rx]
             if np.abs(ampm - want_m).max() > 1e-12 * scale:
                 ctx.violate("matrix-based model amplitude is not Q_i Q'_j times the bilinear interpolant of the matrix", cj, {"kind": "amp_formula", "scattering": "matrix"})
+            # the same with a bilinear interpolant written here from its definition (periodic grid -pi + 2 pi i / n), so that
+            # the library's own kernel is not its own reference; queries within 1e-9 of a node are skipped (either cell is fine there)
+            def bilinear(inc, out):
+                pi_, po_ = (inc + np.pi) / (2 * np.pi / n), (out + np.pi) / (2 * np.pi / n)
+                ii, io = np.floor(pi_).astype(int), np.floor(po_).astype(int)
+                fi, fo = pi_ - ii, po_ - io
+                ii, io = ii % n, io % n
+                i1, o1 = (ii + 1) % n, (io + 1) % n
+                f1 = M[io, ii] + (M[io, i1] - M[io, ii]) * fi
+                f2 = M[o1, ii] + (M[o1, i1] - M[o1, ii]) * fi
+                return f1 + (f2 - f1) * fo, np.minimum(np.minimum(fi, 1 - fi), np.minimum(fo, 1 - fo)) > 1e-9
+            val, safe = bilinear(ttx[:, tx] - a, trx[:, rx] - a)
+            dev = np.abs(ampm - val * Q[:, tx] * Qp[:, rx])
+            if np.any(safe) and dev[safe].max() > 1e-9 * scale:
+                ctx.violate("matrix-based model amplitude is not Q_i Q'_j times the bilinear interpolation (from its definition) of the matrix at "
+                            "(theta_i - a, theta_j - a)", cj, {"kind": "amp_formula", "scattering": "matrix-definition"})
             lines.append(f"modelamp {il(tx)} {il(rx)} {cmat(Q)} {cmat(Qp)} {fmat(ttx)} {fmat(trx)} {f2b(a)} m {n} {cmat(M)}")
             meta.append(("ampm", ampm, cj))
             # ---- sensitivity: independent of the chunk size
